@@ -1,17 +1,8 @@
-//! tv: runtime-monitoring harness for triomphe. One binary, one sub-command per engine.
+//! tv: one binary, one sub-command per engine.
 //! Output protocol: lines starting with "@@" are JSON records for the driver (/verif/check).
+use tv::util::*;
+use tv::{conc, hist, shadow, thin, tk};
 
-mod conc;
-mod hist;
-mod shadow;
-mod thin;
-mod tk;
-mod util;
-
-#[global_allocator]
-static GLOBAL: shadow::Shadow = shadow::Shadow;
-
-use util::*;
 
 fn main() {
     let args = Args::parse();
